@@ -65,7 +65,7 @@ def vc_part(rep, prop, timeout_ms=60000, concrete_hooks=None, only=None):
         replay = dict(obligation=oname, clause=f['detail'], solver_output=f['model'],
                       note='counter-model of the negated verification condition (z3)')
         concrete = False
-        hook = (concrete_hooks or {}).get(r['function'])
+        hook = (concrete_hooks if concrete_hooks is not None else {}).get(r['function'])
         if hook is not None:
           try:
             witness = hook(f)
@@ -79,7 +79,7 @@ def vc_part(rep, prop, timeout_ms=60000, concrete_hooks=None, only=None):
                                 replay=replay, concrete=concrete))
       else:
         # solver gave up: only a concrete failing input on the real code can turn this into a violation
-        hook = (concrete_hooks or {}).get(r['function'])
+        hook = (concrete_hooks if concrete_hooks is not None else {}).get(r['function'])
         witness = None
         if hook is not None:
           try:
